@@ -367,9 +367,9 @@ impl Write for OneByteWriter {
 // ---------------------------------------------------------------------------
 // Families
 
-pub const FAMILIES: [&str; 17] = [
+pub const FAMILIES: [&str; 18] = [
     "truncation", "byte-substitution", "u32-field", "chunk-ops", "xml-mutation", "read-script-1", "read-script-2", "write-fault",
-    "attr-all-bytes", "xml-all-strings", "header-variants", "deep-xml", "chunk-splice", "one-byte-io", "chunk-payload-cut", "chunk-payload-delete-byte", "decode-after-failure",
+    "attr-all-bytes", "xml-all-strings", "header-variants", "deep-xml", "chunk-splice", "one-byte-io", "chunk-payload-cut", "chunk-payload-delete-byte", "decode-after-failure", "xml-long-text",
 ];
 
 const SUBST: [u8; 5] = [0x00, 0x01, 0x7f, 0x80, 0xff];
@@ -475,6 +475,52 @@ pub struct Engine {
     payload_pos: Vec<(usize, usize, usize)>,
     /// (plan, codec) -> bytes written before any failure was injected
     write_reference: std::collections::HashMap<(usize, u8), Vec<u8>>,
+    /// (file, tag index) of every tag of every XML corpus file
+    xml_tag_pos: Vec<(usize, usize)>,
+}
+
+/// Long runs of text (1..65537 bytes; one- to four-byte characters, so that every fixed byte
+/// limit falls inside a character for some variant) as stray text / CDATA after a tag, as a tag
+/// name and as an attribute value.
+const LONG_SIZES: [usize; 9] = [1, 255, 1023, 1024, 1025, 1026, 4097, 8193, 65537];
+const LONG_FILLS: [&str; 6] = ["x", "\u{e9}", "\u{20ac}", "\u{1F600}", "x\u{20ac}", "xx\u{1F600}"];
+const LONG_PLACES: usize = 4;
+
+fn long_text(size: usize, fill: &str) -> String {
+    let mut t = String::with_capacity(size + 4);
+    while t.len() < size {
+        t.push_str(fill);
+    }
+    t
+}
+
+fn xml_long_variant(text: &[u8], tag: (usize, usize), place: usize, size: usize, fill: &str) -> Option<Vec<u8>> {
+    let (s, e) = tag;
+    let t = long_text(size, fill);
+    let splice = |a: usize, b: usize, with: &[u8]| -> Vec<u8> {
+        let mut v = text[..a].to_vec();
+        v.extend_from_slice(with);
+        v.extend_from_slice(&text[b..]);
+        v
+    };
+    match place {
+        0 => Some(splice(e, e, t.as_bytes())),
+        1 => Some(splice(e, e, format!("<![CDATA[{}]]>", t).as_bytes())),
+        2 => {
+            let closing = text.get(s + 1) == Some(&b'/');
+            if text.get(s + 1) == Some(&b'?') || text.get(s + 1) == Some(&b'!') {
+                return None;
+            }
+            let name_start = s + 1 + closing as usize;
+            let name_len = text[name_start..e - 1].iter().position(|&c| c == b' ' || c == b'/').unwrap_or(e - 1 - name_start);
+            Some(splice(name_start, name_start + name_len, t.as_bytes()))
+        }
+        _ => {
+            let q1 = text[s..e].iter().position(|&c| c == b'"')?;
+            let q2 = text[s + q1 + 1..e].iter().position(|&c| c == b'"')?;
+            Some(splice(s + q1 + 1, s + q1 + 1 + q2, t.as_bytes()))
+        }
+    }
 }
 
 fn xml_len(tier: Tier) -> u32 {
@@ -558,7 +604,13 @@ impl Engine {
                 }
             }
         }
-        Engine { corpus, tier, bin, xml, attr, xml_muts, chunk_ops, splices, read_calls, write_targets, payload_pos, write_reference }
+        let mut xml_tag_pos = Vec::new();
+        for &f in &xml {
+            for k in 0..xml_tags(&corpus.files[f].bytes).len() {
+                xml_tag_pos.push((f, k));
+            }
+        }
+        Engine { corpus, tier, bin, xml, attr, xml_muts, chunk_ops, splices, read_calls, write_targets, payload_pos, write_reference, xml_tag_pos }
     }
 
     fn files_of(&self, family: usize) -> Vec<usize> {
@@ -605,6 +657,7 @@ impl Engine {
             13 => (self.corpus.files.len() + self.write_targets.len()) as u64,
             14 | 15 => self.payload_pos.len() as u64 * 3,
             16 => self.corpus.files.len() as u64 * 32,
+            17 => (self.xml_tag_pos.len() * LONG_PLACES * LONG_SIZES.len() * LONG_FILLS.len()) as u64,
             _ => 0,
         }
     }
@@ -879,6 +932,22 @@ impl Engine {
                 b.extend_from_slice(&fb.bytes[tb[j].1..]);
                 judge_decode(Kind::Bin, &b, fam, false, out, &replay);
             }
+            17 => {
+                let nv = (LONG_SIZES.len() * LONG_FILLS.len()) as u64;
+                let (var, rest) = (index % nv, index / nv);
+                let (place, pos) = ((rest % LONG_PLACES as u64) as usize, (rest / LONG_PLACES as u64) as usize);
+                let (f, k) = self.xml_tag_pos[pos];
+                let text = &self.corpus.files[f].bytes;
+                let tag = xml_tags(text)[k];
+                let size = LONG_SIZES[(var as usize) % LONG_SIZES.len()];
+                let fill = LONG_FILLS[(var as usize) / LONG_SIZES.len()];
+                match xml_long_variant(text, tag, place, size, fill) {
+                    Some(m) => {
+                        judge_decode(Kind::Xml, &m, fam, false, out, &replay);
+                    }
+                    None => out.outcome("not-applicable"),
+                }
+            }
             16 => {
                 // state that survives a failed decode: a valid file decoded right after a rejected
                 // one (same thread) gives what it gives on its own
@@ -1074,7 +1143,7 @@ pub fn check(run: &Run) -> Value {
             {"family": "xml-all-strings", "case": "<a/>"},
         ],
         "exhaustive": res.abandoned.is_empty(),
-        "rule": "fault enumeration around the real decoders/encoders: every strict prefix of every corpus file; every single-byte substitution from a 5-value set and every single-bit flip at every offset; every chunk payload cut at every length and with every single byte deleted, re-framed consistently (uncompressed / LZ4 literals / raw zstd); every u32 window of every binary file set to 7 boundary values; every chunk deleted / duplicated / swapped / spliced from another file; every tag / attribute / text-node mutation of every XML file; every read() script with <=1 (thorough: <=2) deviations {Short(1), Short(half), Interrupted} and the one-byte reader; a failing sink at every output offset (Err and Ok(0)) and a one-byte sink; all byte strings of length <=3 into Attributes::from_reader; all strings of length <=5 (thorough 6) over a 14-symbol XML alphabet into rbx_xml::from_str; all binary headers differing from a valid one in <=2 bytes over a 5-value alphabet; legal XML nested 1000..100000 deep. A case is one (family, index) pair.",
+        "rule": "fault enumeration around the real decoders/encoders: every strict prefix of every corpus file; every single-byte substitution from a 5-value set and every single-bit flip at every offset; every chunk payload cut at every length and with every single byte deleted, re-framed consistently (uncompressed / LZ4 literals / raw zstd); every u32 window of every binary file set to 7 boundary values; every chunk deleted / duplicated / swapped / spliced from another file; every tag / attribute / text-node mutation of every XML file; every read() script with <=1 (thorough: <=2) deviations {Short(1), Short(half), Interrupted} and the one-byte reader; a failing sink at every output offset (Err and Ok(0)) and a one-byte sink; all byte strings of length <=3 into Attributes::from_reader; all strings of length <=5 (thorough 6) over a 14-symbol XML alphabet into rbx_xml::from_str; all binary headers differing from a valid one in <=2 bytes over a 5-value alphabet; legal XML nested 1000..100000 deep; runs of 1..65537 bytes of one- to four-byte characters as stray text, CDATA, tag name and attribute value at every tag of every XML file. A case is one (family, index) pair.",
     })
 }
 
